@@ -302,6 +302,44 @@ func init() {
 				c.NonTrivial(id)
 			})
 		}
+		// (a'') a priority column declared through SetFieldIndex (its token is not named "priority"):
+		// single and batch additions must order by it all the same
+		custom := machConf{Name: "prio-custom", Text: `[request_definition]
+r = sub, obj, act
+[policy_definition]
+p = rank, sub, obj, act, eft
+[role_definition]
+g = _, _
+[policy_effect]
+e = priority(p.eft) || deny
+[matchers]
+m = g(r.sub, p.sub) && r.obj == p.obj && r.act == p.act
+`, Defs: []machDef{{"g", true, 2, -1}, {"p", false, 5, 0}}}
+		ncu := 0
+		c07Perms(len(prios), 4, func(p []int) {
+			ncu++
+			if !c.Thorough() && ncu%9 != 0 {
+				return
+			}
+			rule := func(i int) []string {
+				return []string{prios[p[i]], fmt.Sprintf("s%d", p[i]), "data1", "read", []string{"allow", "deny"}[p[i]%2]}
+			}
+			ops := []mOp{{Kind: "add", Pt: "p", R1: [][]string{rule(0)}}, {Kind: "addmany", Pt: "p", R1: [][]string{rule(1), rule(2)}},
+				{Kind: "addmanyex", Pt: "p", R1: [][]string{rule(3), rule(0)}}, {Kind: "remove", Pt: "p", R1: [][]string{rule(1)}}, {Kind: "add", Pt: "p", R1: [][]string{rule(1)}}}
+			id := fmt.Sprintf("c07.custom.%d", ncu)
+			c.Case(id, fmt.Sprintf("(cfg %s) (flags 0 0 none) (content) (obs res (pol p)) (ops %s)",
+				strings.TrimSuffix(strings.TrimPrefix(custom.Sx(), "("), ")"),
+				strings.TrimSuffix(strings.TrimPrefix(opsSx(ops), "("), ")")))
+			m := newMach(custom, false, false, "none", nil)
+			m.E.SetFieldIndex("p", "priority", 0)
+			for k, o := range ops {
+				c.Obs(id, fmt.Sprintf("%d.res", k), m.apply(o))
+				pol, _ := m.E.GetNamedPolicy("p")
+				c.Obs(id, fmt.Sprintf("%d.pol.p", k), rulesKey(pol))
+			}
+			c.NonTrivial(id)
+			c.Count("custom-priority-column")
+		})
 		// (b) loads of shuffled contents
 		nl := 150
 		if c.Thorough() {
